@@ -1,0 +1,76 @@
+//go:build verif
+
+package dxil
+
+// Verification hooks (build tag `verif`, add-only): access to the IR-to-IR
+// pipeline that Compile runs before emission (prepareModule = clone + policy
+// driven InlineUserFunctions, then runOptPasses = sroa -> mem2reg -> dce), so
+// that an external harness can obtain the transformed *ir.Module.
+// Not part of the public API.
+
+import (
+	"fmt"
+
+	"github.com/gogpu/naga/dxil/internal/passes/dce"
+	"github.com/gogpu/naga/dxil/internal/passes/mem2reg"
+	"github.com/gogpu/naga/dxil/internal/passes/sroa"
+	"github.com/gogpu/naga/ir"
+)
+
+// VerifPrepareAndOptimize returns the module that Compile hands to the
+// emitter: prepareModule (on a clone) followed by runOptPasses.
+// opts is accepted for signature stability; the pre-emission pipeline does
+// not depend on it.
+func VerifPrepareAndOptimize(m *ir.Module, opts Options) (*ir.Module, error) {
+	_ = opts
+	if m == nil {
+		return nil, fmt.Errorf("dxil: nil IR module")
+	}
+	out, err := prepareModule(m)
+	if err != nil {
+		return nil, err
+	}
+	if err := runOptPasses(out); err != nil {
+		return nil, err
+	}
+	return out, nil
+}
+
+// VerifPrepareModule is prepareModule alone (clone + inlining under the DXIL
+// inline policy).
+func VerifPrepareModule(m *ir.Module) (*ir.Module, error) {
+	return prepareModule(m)
+}
+
+// VerifRunOptPasses is runOptPasses alone, in place on m.
+func VerifRunOptPasses(m *ir.Module) error {
+	return runOptPasses(m)
+}
+
+// VerifRunPass runs one of the three optimisation passes ("sroa", "mem2reg",
+// "dce") over every entry point and function of m, in place, in the order
+// runOptPasses uses.
+func VerifRunPass(m *ir.Module, name string) error {
+	each := func(f func(fn *ir.Function) error) error {
+		for i := range m.EntryPoints {
+			if err := f(&m.EntryPoints[i].Function); err != nil {
+				return err
+			}
+		}
+		for i := range m.Functions {
+			if err := f(&m.Functions[i]); err != nil {
+				return err
+			}
+		}
+		return nil
+	}
+	switch name {
+	case "sroa":
+		return each(func(fn *ir.Function) error { sroa.Run(m, fn); return nil })
+	case "mem2reg":
+		return each(func(fn *ir.Function) error { return mem2reg.Run(m, fn) })
+	case "dce":
+		return each(func(fn *ir.Function) error { dce.Run(m, fn); return nil })
+	}
+	return fmt.Errorf("unknown pass %q", name)
+}
